@@ -463,6 +463,7 @@ func seedAdoption(name string, iat int, bias bool, seedNo int, bound int, seed i
 			var dialErr, refErr, rdErr error
 			var samples []int
 			var before, after []int
+			unreadable := false
 			res := sched.Run(c, sched.Options{PreemptKinds: []string{"stmt", "lock"}, NoEarlyTimers: true, MaxSteps: 2_000_000}, func() {
 				s := sched.Cur()
 				var rs *o4h.RefSession
@@ -477,6 +478,10 @@ func seedAdoption(name string, iat int, bias bool, seedNo int, bound int, seed i
 				}
 				before, _, _ = obfs4.VerifDists(conn)
 				ld := obfs4.VerifLenDist(conn)
+				if ld == nil || before == nil {
+					unreadable = true // (private representation unknown to the accessor)
+					return
+				}
 				done := false
 				s.Spawn("client-reader", func() {
 					b := make([]byte, 8)
@@ -489,6 +494,11 @@ func seedAdoption(name string, iat int, bias bool, seedNo int, bound int, seed i
 				s.Point("join", func() bool { return done })
 				after, _, _ = obfs4.VerifDists(conn)
 			})
+			if unreadable {
+				c.Count("seed_adoption_scenarios_without_readable_distribution", 1)
+				c.Trivial()
+				return
+			}
 			if len(res.Panics) > 0 {
 				fail(c, "no-panic", "seed-adoption/panic", "%s", res.Panics[0])
 				return
